@@ -25,6 +25,14 @@ FIXED = [
   "a disconnected link (answered REG_ERR after a receiver restart, or REG3 lost) that hears one stray datagram was judged by the tunable conn_timeout_ms and not re-attempted for up to 60 s although its path delivered and the receiver would have accepted it. Replay: 3 links, conn_timeout 60000 ms, receiver restart at 4.1 s; link down for > 32 s after the faults ended."),
  ("C16", "C16.growth:reseed_at_floor", "fix: seed the per-link CC target once",
   "LinkCongestionState::tick re-seeded the target whenever it equalled the 100 kbit/s floor, not only on the first non-bootstrap tick: after drain entries / back-off had driven it to the floor the next tick set it to max(observed, 1 Mbit/s) (100000 -> 4000000 in one tick in the replay), far above the 6 % per-tick growth bound."),
+ ("C18", "C18.socket:unterminated_last_request_unanswered", "fix: control socket keeps a partially",
+  "src/control_socket.rs handle() selected between reader.read_line() and the connection's push channel; read_line is not cancellation safe, so when a subscription event won the select while a request had only partly arrived (split across writes, or a last request without a newline before the half-close) the bytes already read were dropped with the future: the request was never answered or applied (stdin answers it), or its tail was answered as a parse error. Replay (engine X): one client subscribes to priority.window, writes a set_conn_timeout request without a newline, three events are published, the client half-closes: 8 responses for 9 answerable requests."),
+ ("C18", "C18.socket:missing_response", "fix: control socket keeps a partially",
+  "same defect as unterminated_last_request_unanswered, for a request in the middle of the stream whose first part was dropped and whose tail merged into the next line."),
+ ("C18", "C18.socket:entry_points_differ", "fix: control socket keeps a partially",
+  "same defect: the tail of a request whose head was dropped is answered -32700 on the socket where stdin answers the request."),
+ ("C18", "C18.socket:not_applied", "fix: control socket keeps a partially",
+  "same defect: a set_* notification whose head was dropped is not applied on the socket."),
 ]
 KNOWN = []
 
